@@ -97,6 +97,9 @@ def results_violations(kwargs: dict, length: float, results: dict) -> List[str]:
     except Exception:  # pylint: disable=broad-except
         return ["results-incomplete"]
     tol = 5e-6
+    if abs(r - 1) < 1.5e-7:
+        # inside the library's uniform-cells branch (|c2c - 1| <= 1e-7) sizes are L/count: off by up to count * 1e-7 / 2
+        tol += c * 1.1e-7
     if abs(e / r ** (c - 1) - 1) > tol:
         bad.append("results-total-vs-c2c")
     first, last = decode(length, c, e)
